@@ -71,12 +71,16 @@ impl Blob {
             .seek_physical(self.offset)
             .read_err("Failed to seek to start offset of blob")?;
         let header = BlobSectionHeader::from_reader(reader)?;
-        if self.length > header.section_length + 16 {
+        if self.length > header.section_length.saturating_add(16) {
             Error::invalid("Blob XML length and blob section header mismatch")?
         }
 
         let mut limited = reader.take(self.length);
-        copy(&mut limited, writer).read_err("Failed to read binary blob data")
+        let copied = copy(&mut limited, writer).read_err("Failed to read binary blob data")?;
+        if copied != self.length {
+            Error::invalid("Blob data ends before the specified blob length is reached")?
+        }
+        Ok(copied)
     }
 
     pub(crate) fn write<T: Read + Write + Seek>(
